@@ -7,7 +7,7 @@ cd $WT || exit 9
 git checkout -- . ; git clean -fdq
 rundemo() {
   if [ "$KIND" = test ]; then cp $OUT/demo_test.go $PKG/zz_demo_test.go; go test -vet=off -count=1 -run "$RX" ./$PKG/ > /tmp/demo_out.$$ 2>&1; rc=$?; rm -f $PKG/zz_demo_test.go
-  else cp $OUT/demo.sh ./zz_demo.sh; sh ./zz_demo.sh > /tmp/demo_out.$$ 2>&1; rc=$?; rm -f ./zz_demo.sh; fi
+  else cp $OUT/demo.sh ./zz_demo.sh; sh ./zz_demo.sh $WT > /tmp/demo_out.$$ 2>&1; rc=$?; rm -f ./zz_demo.sh; fi
   return $rc
 }
 rundemo; clean_rc=$?
